@@ -396,14 +396,22 @@ class FSM:
             d[c] = list(v)
         return d
 
+    # The pollers also wait for the pipeline to be at rest in running: the
+    # update can only be triggered from there (an idle archive or another
+    # submission being prepared may be in the way when the condition is met).
+
     def is_crew_done(self):
         # pylint: disable=protected-access
-        while dawgie.pl.farm._busy and self.waiting_on_crew():
+        while (
+            dawgie.pl.farm._busy or not self.is_pipeline_active()
+        ) and self.waiting_on_crew():
             time.sleep(0.2)
         return
 
     def is_doing_done(self):
-        while dawgie.pl.schedule.view_doing() and self.waiting_on_doing():
+        while (
+            dawgie.pl.schedule.view_doing() or not self.is_pipeline_active()
+        ) and self.waiting_on_doing():
             time.sleep(0.2)
         return
 
@@ -411,7 +419,9 @@ class FSM:
         return self.state == 'running' and self.transitioning == Status.active
 
     def is_todo_done(self):
-        while dawgie.pl.schedule.que and self.waiting_on_todo():
+        while (
+            dawgie.pl.schedule.que or not self.is_pipeline_active()
+        ) and self.waiting_on_todo():
             time.sleep(0.2)
         return
 
@@ -556,7 +566,11 @@ class FSM:
             # this poller is gone whether or not it is still the active wait
             self.crew_thread = None
             if self.waiting_on_crew():
-                self.update_trigger()
+                if self.is_pipeline_active():
+                    self.update_trigger()
+                else:
+                    # lost the race with another transition: wait again
+                    self.wait_for_crew()
                 pass
             return
 
@@ -583,7 +597,11 @@ class FSM:
             # this poller is gone whether or not it is still the active wait
             self.doing_thread = None
             if self.waiting_on_doing():
-                self.update_trigger()
+                if self.is_pipeline_active():
+                    self.update_trigger()
+                else:
+                    # lost the race with another transition: wait again
+                    self.wait_for_doing()
                 pass
             return
 
@@ -617,7 +635,11 @@ class FSM:
             # this poller is gone whether or not it is still the active wait
             self.todo_thread = None
             if self.waiting_on_todo():
-                self.update_trigger()
+                if self.is_pipeline_active():
+                    self.update_trigger()
+                else:
+                    # lost the race with another transition: wait again
+                    self.wait_for_todo()
                 pass
             return
 
